@@ -271,6 +271,43 @@ pub fn steps_read() -> u64 {
 }
 
 // ---------------------------------------------------------------------------
+// huge read-only zero region (anonymous mapping: virtual only, never touched pages cost nothing);
+// lets a workload hand the library a >= 4 GiB slice without allocating it
+
+extern "C" {
+    fn mmap(addr: *mut u8, len: usize, prot: i32, flags: i32, fd: i32, off: i64) -> *mut u8;
+    fn munmap(addr: *mut u8, len: usize) -> i32;
+}
+
+pub struct ZeroRegion {
+    ptr: *mut u8,
+    len: usize,
+}
+
+impl ZeroRegion {
+    pub fn new(len: usize) -> Option<ZeroRegion> {
+        // PROT_READ = 1, MAP_PRIVATE | MAP_ANONYMOUS | MAP_NORESERVE = 0x02 | 0x20 | 0x4000
+        let p = unsafe { mmap(std::ptr::null_mut(), len.max(1), 1, 0x4022, -1, 0) };
+        if p as isize == -1 || p.is_null() {
+            None
+        } else {
+            Some(ZeroRegion { ptr: p, len })
+        }
+    }
+    pub fn as_slice(&self) -> &[u8] {
+        unsafe { std::slice::from_raw_parts(self.ptr, self.len) }
+    }
+}
+
+impl Drop for ZeroRegion {
+    fn drop(&mut self) {
+        unsafe {
+            munmap(self.ptr, self.len.max(1));
+        }
+    }
+}
+
+// ---------------------------------------------------------------------------
 // stack monitor (second part of the hook: low-water mark of the stack pointer)
 
 type StackResetFn = fn(usize);
